@@ -30,6 +30,17 @@ impl MemTable {
         self.tombstoned_nodes.insert(node);
     }
 
+    /// Relationships created in this memtable (and not deleted again) that start or end at `node`.
+    pub fn edges_touching(&self, node: InternalNodeId) -> Vec<EdgeKey> {
+        let mut edges: Vec<EdgeKey> = self.out.get(&node).cloned().unwrap_or_default();
+        for edge in self.in_.get(&node).into_iter().flatten() {
+            if !edges.contains(edge) {
+                edges.push(*edge);
+            }
+        }
+        edges
+    }
+
     pub fn tombstone_edge(&mut self, src: InternalNodeId, rel: RelTypeId, dst: InternalNodeId) {
         let key = EdgeKey { src, rel, dst };
         if let Some(edges) = self.out.get_mut(&src) {
